@@ -11,7 +11,7 @@ import warnings
 
 import numpy as np
 
-from vlib.core import HELD, SKIPPED, VIOLATED, Check, result
+from vlib.core import HELD, SKIPPED, VIOLATED, Check, case_bits, result
 
 METHODS = ["linear", "comoving", "logspace"]
 UNITS = ["kpc", "Mpc", "rad", "deg", "arcmin", "arcsec", "kpc/h", "Mpc/h"]
@@ -107,9 +107,20 @@ def gen_params(rng):
     return p
 
 
-def realise(p):
-    """Turn the JSON-able description into create() keyword arguments."""
+def realise(p, numpy_types=False):
+    """Turn the JSON-able description into create() keyword arguments.  numpy_types: numbers are handed over
+    as numpy scalars/arrays (what a caller computing its parameters with numpy passes)."""
     kw = dict(p)
+    if numpy_types:
+        for k, v in list(kw.items()):
+            if isinstance(v, bool) or v is None or isinstance(v, str):
+                continue
+            if isinstance(v, int):
+                kw[k] = np.int64(v)
+            elif isinstance(v, float):
+                kw[k] = np.float64(v)
+            elif isinstance(v, list):
+                kw[k] = np.asarray(v, dtype=float)
     c = kw.get("cosmology")
     if isinstance(c, str) and (c.startswith("custom") or c.startswith("flcdm")):
         kw["cosmology"] = resolve_cosmology(c)
@@ -336,7 +347,7 @@ class C15(Check):
         p = gen_params(rng)
         cosmo = resolve_cosmology(p.get("cosmology"))
         try:
-            cfg = Configuration.create(**realise(p))
+            cfg = Configuration.create(**realise(p, numpy_types=case_bits(case, "numpy-types") % 3 == 0))
         except Exception as e:
             bad(f"create:raises-{type(e).__name__}:{p.get('method', 'custom')}:{'custom-cosmo' if str(p.get('cosmology', '')).startswith('custom') else ('unnamed-cosmo' if str(p.get('cosmology', '')).startswith('flcdm') else 'named-cosmo')}",
                 dict(params=p, error=f"{type(e).__name__}: {e}"))
@@ -410,7 +421,7 @@ class C15(Check):
             except Exception as e:
                 want = e
             try:
-                got = cfg.modify(**realise(delta))
+                got = cfg.modify(**realise(delta, numpy_types=case_bits(case, "numpy-delta") % 3 == 0))
             except Exception as e:
                 got = e
             counters["modifications_compared"] = counters.get("modifications_compared", 0) + 1
